@@ -101,13 +101,18 @@ def render_decl(d, style: int = 0) -> str:
         if d.get("name") and d["name"] != d["type"]:
             head += f" as {d['name']}"
         out = [head + " {\n"]
-        for kk, vv in d["fields"]:
+        # the grammar lets extension fields and signal blocks alternate freely: styles 8..15 put all fields but the
+        # first AFTER the signal blocks (impl p for S { id: 1, signal a {..}, period: 10, })
+        late = d["fields"][1:] if (style // 8) % 2 == 1 and d.get("signals") else []
+        for kk, vv in (d["fields"][:1] if late else d["fields"]):
             out.append(f"{ind}{kk}: {vstr(vv)},\n")
         for sb in d.get("signals", []):
             out.append(f"{ind}signal {sb['name']} {{\n")
             for kk, vv in sb["fields"]:
                 out.append(f"{ind}{ind}{kk}: {vstr(vv)},\n")
             out.append(f"{ind}}},\n")
+        for kk, vv in late:
+            out.append(f"{ind}{kk}: {vstr(vv)},\n")
         out.append("}\n")
         return "".join(out)
     if k == "service":
@@ -123,7 +128,10 @@ def render_decl(d, style: int = 0) -> str:
         out.append("}\n")
         return "".join(out)
     if k == "mod":
-        return "mod " + ".".join(d["path"]) + ";\n"
+        # white space, line breaks and comments are legal between the tokens of a dotted path
+        sep = {0: ".", 1: " . ", 2: ".\n    ", 3: "./* sub */"}[d.get("spelling", 0)] if len(d["path"]) > 1 else "."
+        tail = {0: ";", 1: " ;", 2: ";", 3: "\n;"}[d.get("spelling", 0)]
+        return "mod " + sep.join(d["path"]) + tail + "\n"
     if k == "raw":
         return d["text"]
     raise ValueError(k)
